@@ -788,6 +788,10 @@ func c10Send(c *Ctx, a *clientAnchors) {
 			}
 		}
 	})
+	if a.register != nil && mu == nil && look == nil && write != nil {
+		c10SendViaRegister(c, a, write, nWrite, keyWant)
+		return
+	}
 	if mu == nil || look == nil || write == nil {
 		r.Undecided("C10-K3", key("shape"), c.P.pos(fn.Pos()), fmt.Sprintf("need lookup, store and WriteTo; found %v/%v/%v", look != nil, mu != nil, write != nil))
 		return
@@ -1249,4 +1253,173 @@ func freshBufferSite(v ssa.Value) ssa.Instruction {
 		}
 	}
 	return nil
+}
+
+// c10SendViaRegister: the K3 clauses when the check-and-register step lives in an unexported helper g that send calls
+// once (`ch, done, ok := c.register(msg.TransactionID)`): inside g — one lookup and one store keyed by g's id parameter,
+// the store only on the not-present edge, both under the lock in one critical section, the lock released on every exit,
+// and a boolean (or error) result that is "registered" exactly on the paths through the store; in send — the id handed
+// to g is msg.TransactionID, the not-registered outcome neither transmits nor returns a nil error, and the call
+// dominates the one WriteTo, which runs outside the lock.
+func c10SendViaRegister(c *Ctx, a *clientAnchors, write *ssa.Call, nWrite int, keyWant string) {
+	r, sx, fn, g := c.R, c.Sx(), a.send, a.register
+	key := func(s string) string { return a.short + ".send: " + s }
+	var call *ssa.Call
+	allInstrs(fn, func(in ssa.Instruction) {
+		if cl, ok := in.(*ssa.Call); ok && cl.Call.StaticCallee() == g {
+			call = cl
+		}
+	})
+	var mu *ssa.MapUpdate
+	var look *ssa.Lookup
+	nMu := 0
+	allInstrs(g, func(in ssa.Instruction) {
+		switch x := in.(type) {
+		case *ssa.MapUpdate:
+			if a.isClientFieldLoad(x.Map, "pending") {
+				mu = x
+				nMu++
+			}
+		case *ssa.Lookup:
+			if x.CommaOk && a.isClientFieldLoad(x.X, "pending") {
+				look = x
+			}
+		}
+	})
+	if call == nil || mu == nil || look == nil {
+		r.Undecided("C10-K3", key("shape"), c.P.pos(fn.Pos()), "registration helper "+shortName(g)+": call, lookup or store not found")
+		return
+	}
+	r.Check(nMu == 1 && nWrite == 1, "C10-K3", key("one store, one transmission"), c.P.ipos(mu), "instance count", fmt.Sprintf("%d stores into pending, %d WriteTo calls", nMu, nWrite))
+	// the key: g's parameter, which is msg.TransactionID at the call
+	var idPrm *ssa.Parameter
+	for _, p := range g.Params {
+		if ssa.Value(p) == mu.Key {
+			idPrm = p
+		}
+	}
+	okKey := idPrm != nil && look.Index == ssa.Value(idPrm)
+	if okKey {
+		for i, p := range g.Params {
+			if p == idPrm && i < len(call.Call.Args) {
+				okKey = sx.Of(call.Call.Args[i]).String() == keyWant
+			}
+		}
+	}
+	r.Check(okKey, "C10-K3", key("store key is msg.TransactionID"), c.P.ipos(mu), "the helper's id parameter keys lookup and store; the call passes msg.TransactionID", "store key "+sx.Of(mu.Key).String()+", lookup key "+sx.Of(look.Index).String())
+	r.OK("C10-K3", key("lookup key is msg.TransactionID"), c.P.ipos(look), "same parameter", "")
+	okv := extractOf(look, 1)
+	var present, absent Edge
+	found := false
+	for _, b := range g.Blocks {
+		if iff := ifOf(b); iff != nil && okv != nil {
+			if tE, fE, ok := boolEdgesOf(iff, func(v ssa.Value) bool { return v == ssa.Value(okv) }); ok {
+				present, absent, found = tE, fE, true
+			}
+		}
+	}
+	if !found {
+		r.Violation("C10-K3", key("presence not tested"), c.P.ipos(look), "the result of the pending lookup is not branched on: a colliding transaction id is not refused")
+		return
+	}
+	r.Check(mustPassEdges(g, mu.Block(), absent), "C10-K3", key("store only when the id is not pending"), c.P.ipos(mu), "store unreachable without the not-present edge", "the entry of a pending transaction can be overwritten")
+	// the helper's verdict: which result tells the caller, and with which value on which side
+	reachP := reachFrom(present.To, nil, nil)
+	verdictIdx := -1
+	var verdictReg bool // value of the boolean verdict that means "registered"
+	okVerdict := true
+	rets := returnsOf(g)
+	for _, ret := range rets {
+		for i := range ret.Results {
+			if _, ok := boolConst(retResult(ret, i)); ok && verdictIdx < 0 {
+				verdictIdx = i
+			}
+		}
+	}
+	if verdictIdx >= 0 {
+		seenReg := false
+		for _, ret := range rets {
+			b, ok := boolConst(retResult(ret, verdictIdx))
+			if !ok {
+				okVerdict = false
+				continue
+			}
+			if !reachP[ret.Block()] {
+				if seenReg && b != verdictReg {
+					okVerdict = false
+				}
+				verdictReg, seenReg = b, true
+			}
+		}
+		for _, ret := range rets {
+			if b, ok := boolConst(retResult(ret, verdictIdx)); ok && reachP[ret.Block()] && b == verdictReg {
+				okVerdict = false
+			}
+		}
+		okVerdict = okVerdict && seenReg
+	}
+	r.Check(!reachP[mu.Block()] && verdictIdx >= 0 && okVerdict, "C10-K3", key("colliding id neither registers nor transmits"), c.P.ipos(look), "in the helper the present edge reaches no store and returns the 'not registered' verdict; the registering paths return the opposite",
+		"the registration helper stores on the present edge or its boolean verdict does not separate the colliding from the registering paths")
+	// in send: the not-registered outcome returns a non-nil error and does not transmit
+	var verdict ssa.Value
+	if verdictIdx >= 0 {
+		verdict = extractOf(call, verdictIdx)
+	}
+	foundV := false
+	for _, b := range fn.Blocks {
+		iff := ifOf(b)
+		if iff == nil || verdict == nil {
+			continue
+		}
+		if tE, fE, ok := boolEdgesOf(iff, func(v ssa.Value) bool { return v == verdict }); ok {
+			foundV = true
+			refused := fE
+			if !verdictReg {
+				refused = tE
+			}
+			reach := reachFrom(refused.To, nil, nil)
+			r.Check(!reach[write.Block()], "C10-K3", key("colliding id does not transmit"), c.P.ipos(iff), "WriteTo unreachable from the not-registered outcome", "a call reusing a pending transaction id still transmits")
+			for rb := range reach {
+				if ret, ok := rb.Instrs[len(rb.Instrs)-1].(*ssa.Return); ok {
+					s := sx.Of(ret.Results[len(ret.Results)-1]).String()
+					r.Check(!strings.HasPrefix(s, "const(nil"), "C10-K3", key("colliding id returns an error"), c.P.ipos(ret), "non-nil error value", "the colliding call returns a nil error")
+				}
+			}
+			registered := tE
+			if !verdictReg {
+				registered = fE
+			}
+			r.Check(mustPassEdges(fn, write.Block(), registered), "C10-K3", key("registration precedes transmission"), c.P.ipos(write), "WriteTo only behind the registered outcome of the helper",
+				"the datagram can be transmitted although the transaction was not registered")
+		}
+	}
+	if !foundV {
+		r.Violation("C10-K3", key("presence not tested"), c.P.ipos(call), "send does not branch on the registration helper's verdict")
+	}
+	// lock discipline inside the helper
+	li := a.lockFlow(g)
+	r.Check(li.must[look] && li.must[mu], "C10-K3", key("lookup and store under the lock"), c.P.ipos(mu), "must-hold", "lookup or store of pending without pendingMu held")
+	unlockBetween := false
+	for _, b := range g.Blocks {
+		for _, in := range b.Instrs {
+			if a.isMuCall(in, "Unlock") {
+				// an explicit Unlock anywhere between: conservative — any Unlock that can precede the store and follow the lookup
+				if reachFrom(look.Block(), nil, nil)[b] && reachFrom(b, nil, nil)[mu.Block()] && !(b == mu.Block() && instrIndex(in) > instrIndex(mu)) && !(b == look.Block() && instrIndex(in) < instrIndex(look)) {
+					unlockBetween = true
+				}
+			}
+		}
+	}
+	r.Check(!unlockBetween, "C10-K3", key("check and registration in one critical section"), c.P.ipos(mu), "no Unlock on any path between lookup and store",
+		"pendingMu is released between the 'already pending?' check and the registration: two concurrent callers with the same id can both be accepted")
+	released := true
+	for _, b := range g.Blocks {
+		if _, isRet := b.Instrs[len(b.Instrs)-1].(*ssa.Return); isRet && li.exitMay[b] {
+			released = false
+		}
+	}
+	r.Check(released, "C10-K5", key("the registration helper releases the lock on every exit"), c.P.pos(g.Pos()), "may-hold is false at every return", "pendingMu may still be held when the helper returns")
+	r.Check(instrDominates(call, write), "C10-K3", key("registration call precedes transmission"), c.P.ipos(write), "the helper call dominates WriteTo", "the datagram can be transmitted before the transaction is registered: a fast reply is dropped as unsolicited")
+	ls := a.lockFlow(fn)
+	r.Check(!ls.may[write], "C11-K5", key("transmission outside the lock"), c.P.ipos(write), "may-hold is false at WriteTo", "WriteTo is called while pendingMu may be held")
 }
